@@ -59,6 +59,10 @@ theorem vAnd_truthy_left (a b : Val) (hne : ∀ k, a ≠ .err k) (ht : truthy a 
   · exact absurd rfl (hne _)
   · split <;> simp_all [truthy]
 
+theorem vOr_err_left (k : ErrKind) (v : Val) :
+    vOr (.err k) v = if truthy v then .bool true else .err k := by
+  cases v <;> rfl
+
 /-- The clause of `evalSpec` for `||` is what one link of the chain computes. -/
 theorem or_link (va vb : Val) :
     (if truthy va then Val.bool true else vOr va vb) = chainVal true vOr va [vb] := by
@@ -349,6 +353,212 @@ theorem inv_all (hnp : NoProgs env) {e : Ast} (h : InFragment e) :
       have hr := ihc.runs
       rw [hc] at hr
       exact inv_code (runs_tern hnp hr iht.runs ihf.runs)
+
+end
+
+
+/-! ### the theorems -/
+
+section
+variable {B : Builtins} {env : Env}
+
+/-- **Compiler correctness on the fragment.**  The code emitted for `e` (constant-folded or not), placed
+    anywhere (`pre ++ code ++ post`), started at its first instruction on any stack, reaches its end in
+    at most `code.length` steps having pushed exactly one entry, which denotes `evalSpec e env`; the rest
+    of the stack and the log are untouched (that is `Runs`, Lemmas/Seq.lean).
+    Not covered: `match`, map literals, f-strings, member access / index / calls / macros, stored programs. -/
+theorem compile_correct_partial {rec top : Rec} (hnp : NoProgs env) {e : Ast} (h : InFragment e) :
+    Runs B rec top env (compileX B e).cp.toCode (evalSpec e env) :=
+  (inv_all hnp h).runs
+
+/-- **Folding is sound on the fragment.**  Whenever the compiler replaces a tree by a constant, that constant
+    is the value the semantics gives the tree — in every environment (without stored programs), so nothing an
+    environment binds can tell the folded program from the unfolded one. -/
+theorem fold_sound_partial (hnp : NoProgs env) {e : Ast} (h : InFragment e) {v : Val}
+    (hc : compile B e = .const v) : v = evalSpec e env :=
+  ((inv_all (rec := runAt B 0) (top := runAt B 0) hnp h).const v hc).1
+
+/-- The compiled program, run as `CelContext::exec` runs it. -/
+def run (B : Builtins) (env : Env) (e : Ast) : Out := execProg B env (compileProgram B e)
+
+/-- **End to end.**  Executing the compiled program yields `evalSpec e env` — a failure value as a failure —
+    and an empty call log. -/
+theorem exec_correct_partial (hnp : NoProgs env) {e : Ast} (h : InFragment e) :
+    run B env e = outOf (evalSpec e env) [] := by
+  show runAt B (31 + 1) env (compileX B e).cp.toCode true [] = _
+  exact runAt_of_runs hnp 31 (compile_correct_partial hnp h) []
+
+theorem outOf_nonerr {v : Val} (log : Log) : (∀ k, v ≠ .err k) → outOf v log = { res := .ok v, log := log } := by
+  intro h
+  cases v <;> first | rfl | exact absurd rfl (h _)
+
+theorem outOf_res_ok {v va : Val} {log : Log} : (outOf v log).res = .ok va → v = va ∧ ∀ k, v ≠ .err k := by
+  intro h
+  cases v <;> simp [outOf] at h <;> subst h <;> simp
+
+theorem outOf_res_err {v : Val} {a : Abort} {log : Log} :
+    (outOf v log).res = .error a → ∃ k, v = .err k ∧ a = .err k := by
+  intro h
+  cases v <;> simp_all [outOf]
+
+theorem spec_of_ok (hnp : NoProgs env) {e : Ast} (h : InFragment e) {v : Val}
+    (hr : (run B env e).res = .ok v) : evalSpec e env = v ∧ ∀ k, v ≠ .err k := by
+  rw [exec_correct_partial hnp h] at hr
+  obtain ⟨h1, h2⟩ := outOf_res_ok hr
+  exact ⟨h1, fun k hk => h2 k (h1.trans hk)⟩
+
+theorem spec_of_fail (hnp : NoProgs env) {e : Ast} (h : InFragment e) {a : Abort}
+    (hr : (run B env e).res = .error a) : ∃ k, evalSpec e env = .err k ∧ a = .err k := by
+  rw [exec_correct_partial hnp h] at hr
+  exact outOf_res_err hr
+
+/-- `a || b` with a truthy `a` is `true`, whatever `b` is: `b` is not evaluated. -/
+theorem or_skips_rhs (hnp : NoProgs env) (sp : Span) {a b : Ast} (ha : InFragment a) (hb : InFragment b)
+    {va : Val} (hva : (run B env a).res = .ok va) (ht : truthy va = true) :
+    run B env (.bin sp .or a b) = { res := .ok (.bool true), log := [] } := by
+  obtain ⟨hs, _⟩ := spec_of_ok hnp ha hva
+  rw [exec_correct_partial hnp (.bin sp .or a b ha hb), evalSpec, hs]
+  simp [ht, outOf]
+
+/-- … so replacing `b` by any other expression of the fragment changes nothing. -/
+theorem or_rhs_irrelevant (hnp : NoProgs env) (sp : Span) {a b b' : Ast} (ha : InFragment a)
+    (hb : InFragment b) (hb' : InFragment b') {va : Val} (hva : (run B env a).res = .ok va)
+    (ht : truthy va = true) :
+    run B env (.bin sp .or a b) = run B env (.bin sp .or a b') := by
+  rw [or_skips_rhs hnp sp ha hb hva ht, or_skips_rhs hnp sp ha hb' hva ht]
+
+/-- `a && b`: a falsy `a` gives `false`, a failing `a` gives that failure — whatever `b` is. -/
+theorem and_skips_rhs_on_falsy_or_failing (hnp : NoProgs env) (sp : Span) {a b : Ast}
+    (ha : InFragment a) (hb : InFragment b) :
+    (∀ va, (run B env a).res = .ok va → truthy va = false →
+      run B env (.bin sp .and a b) = { res := .ok (.bool false), log := [] }) ∧
+    (∀ x, (run B env a).res = .error x → run B env (.bin sp .and a b) = run B env a) := by
+  constructor
+  · intro va hva hf
+    obtain ⟨hs, hne⟩ := spec_of_ok hnp ha hva
+    rw [exec_correct_partial hnp (.bin sp .and a b ha hb), es_and, hs]
+    rcases vTest_cases va with ⟨k, hk, _⟩ | ⟨_, hT⟩
+    · exact absurd hk (hne k)
+    · simp [chainVal, hT, hf, jumps, outOf]
+  · intro x hx
+    obtain ⟨k, hs, _⟩ := spec_of_fail hnp ha hx
+    rw [exec_correct_partial hnp (.bin sp .and a b ha hb), exec_correct_partial hnp ha, es_and, hs]
+    simp [chainVal, vTest, jumps]
+
+/-- `c ? x : y` with a non-failing `c` is exactly one of the two branches, chosen by the truthiness of `c`. -/
+theorem tern_exactly_one (hnp : NoProgs env) (sp : Span) {c x y : Ast} (hc : InFragment c)
+    (hx : InFragment x) (hy : InFragment y) {vc : Val} (hvc : (run B env c).res = .ok vc) :
+    run B env (.tern sp c x y) = if truthy vc then run B env x else run B env y := by
+  obtain ⟨hs, hne⟩ := spec_of_ok hnp hc hvc
+  rw [exec_correct_partial hnp (.tern sp c x y hc hx hy), exec_correct_partial hnp hx,
+    exec_correct_partial hnp hy, es_tern, hs, ternVal_nonerr hne]
+  cases truthy vc <;> rfl
+
+/-- `c ? x : y` with a failing `c` fails with that failure; neither branch matters. -/
+theorem tern_fails_on_failing_cond (hnp : NoProgs env) (sp : Span) {c x y : Ast} (hc : InFragment c)
+    (hx : InFragment x) (hy : InFragment y) {a : Abort} (hvc : (run B env c).res = .error a) :
+    run B env (.tern sp c x y) = run B env c := by
+  obtain ⟨k, hs, _⟩ := spec_of_fail hnp hc hvc
+  rw [exec_correct_partial hnp (.tern sp c x y hc hx hy), exec_correct_partial hnp hc, es_tern, hs]
+  rfl
+
+/-- A sub-expression `x` that would fail if it were evaluated is invisible in every skipped position. -/
+theorem unevaluated_failure_invisible (hnp : NoProgs env) (sp : Span) {a x y : Ast} (ha : InFragment a)
+    (hx : InFragment x) (hy : InFragment y) {f : Abort} (_hx : (run B env x).res = .error f)
+    {va : Val} (hva : (run B env a).res = .ok va) :
+    (truthy va = true → run B env (.bin sp .or a x) = { res := .ok (.bool true), log := [] }) ∧
+    (truthy va = false → run B env (.bin sp .and a x) = { res := .ok (.bool false), log := [] }) ∧
+    (truthy va = true → run B env (.tern sp a y x) = run B env y) ∧
+    (truthy va = false → run B env (.tern sp a x y) = run B env y) := by
+  refine ⟨fun ht => or_skips_rhs hnp sp ha hx hva ht,
+    fun hf => (and_skips_rhs_on_falsy_or_failing hnp sp ha hx).1 va hva hf, fun ht => ?_, fun hf => ?_⟩
+  · rw [tern_exactly_one hnp sp ha hy hx hva, ht]; rfl
+  · rw [tern_exactly_one hnp sp ha hx hy hva, hf]; rfl
+
+/-- A truthy right operand absorbs a failing left operand of `||` … -/
+theorem or_true_absorbs_failing_lhs (hnp : NoProgs env) (sp : Span) {a b : Ast} (ha : InFragment a)
+    (hb : InFragment b) {f : Abort} (hfa : (run B env a).res = .error f) {vb : Val}
+    (hvb : (run B env b).res = .ok vb) (ht : truthy vb = true) :
+    run B env (.bin sp .or a b) = { res := .ok (.bool true), log := [] } := by
+  obtain ⟨k, hs, _⟩ := spec_of_fail hnp ha hfa
+  obtain ⟨hsb, _⟩ := spec_of_ok hnp hb hvb
+  rw [exec_correct_partial hnp (.bin sp .or a b ha hb), evalSpec, hs, hsb]
+  have h0 : truthy (Val.err k) = false := rfl
+  simp [h0, vOr_err_left, ht, outOf]
+
+/-- … and otherwise the failure of the left operand is the result. -/
+theorem or_fails_otherwise (hnp : NoProgs env) (sp : Span) {a b : Ast} (ha : InFragment a)
+    (hb : InFragment b) {f : Abort} (hfa : (run B env a).res = .error f) {vb : Val}
+    (hvb : (run B env b).res = .ok vb) (ht : truthy vb = false) :
+    run B env (.bin sp .or a b) = run B env a := by
+  obtain ⟨k, hs, _⟩ := spec_of_fail hnp ha hfa
+  obtain ⟨hsb, _⟩ := spec_of_ok hnp hb hvb
+  rw [exec_correct_partial hnp (.bin sp .or a b ha hb), exec_correct_partial hnp ha, evalSpec, hs, hsb]
+  have h0 : truthy (Val.err k) = false := rfl
+  simp [h0, vOr_err_left, ht]
+
+end
+
+
+/-! ### non-vacuity: the hypotheses of every theorem above are satisfiable -/
+
+section
+variable (B : Builtins)
+
+def sp0 : Span := default
+def lit (i : Int) : Ast := .member sp0 (.int sp0 i) []
+def var (n : String) : Ast := .member sp0 (.ident sp0 n.toList) []
+def env0 : Env := {}
+
+theorem np0 : NoProgs env0 := noProgs_of_nil rfl
+theorem lit_frag (i : Int) : InFragment (lit i) := .int _ _ _
+theorem var_frag (n : String) : InFragment (var n) := .ident _ _ _
+
+/-- `1` runs to `1`; the unbound `x` fails with a Binding failure. -/
+theorem run_lit (i : Int) : (run B env0 (lit i)).res = .ok (.int i) := by
+  rw [exec_correct_partial np0 (lit_frag i)]; rfl
+theorem run_unbound : (run B env0 (var "x")).res = .error (.err .binding) := by
+  rw [exec_correct_partial np0 (var_frag "x")]; rfl
+
+-- compile_correct_partial / exec_correct_partial: `x || 1 ? [x, -2] : !x` is in the fragment
+example : InFragment (.tern sp0 (.bin sp0 .or (var "x") (lit 1))
+    (.member sp0 (.list sp0 [var "x", .negRun sp0 [sp0] (lit 2)]) []) (.notRun sp0 [sp0] (var "x"))) :=
+  .tern _ _ _ _ (.bin _ _ _ _ (var_frag _) (lit_frag _))
+    (.list _ _ _ (fun e he => by
+      simp only [List.mem_cons, List.mem_nil_iff, or_false] at he
+      rcases he with rfl | rfl
+      · exact var_frag _
+      · exact .negRun _ _ _ (lit_frag _)))
+    (.notRun _ _ _ (var_frag _))
+-- fold_sound_partial: `1 + 2` is folded, to 3
+example : compile B (.bin sp0 .add (lit 1) (lit 2)) = .const (.int 3) := by
+  simp [compile, compileX, compilePrim, compileOps, lit]; rfl
+example : evalSpec (.bin sp0 .add (lit 1) (lit 2)) env0 = .int 3 :=
+  (fold_sound_partial (B := B) np0 (.bin _ _ _ _ (lit_frag 1) (lit_frag 2)) (by
+    simp [compile, compileX, compilePrim, compileOps, lit]; rfl)).symm
+-- or_skips_rhs / or_rhs_irrelevant: `1 || x`
+example : run B env0 (.bin sp0 .or (lit 1) (var "x")) = { res := .ok (.bool true), log := [] } :=
+  or_skips_rhs np0 sp0 (lit_frag 1) (var_frag "x") (run_lit B 1) rfl
+example : run B env0 (.bin sp0 .or (lit 1) (var "x")) = run B env0 (.bin sp0 .or (lit 1) (lit 0)) :=
+  or_rhs_irrelevant np0 sp0 (lit_frag 1) (var_frag "x") (lit_frag 0) (run_lit B 1) rfl
+-- and_skips_rhs_on_falsy_or_failing: `0 && x`, `x && 1`
+example : run B env0 (.bin sp0 .and (lit 0) (var "x")) = { res := .ok (.bool false), log := [] } :=
+  (and_skips_rhs_on_falsy_or_failing np0 sp0 (lit_frag 0) (var_frag "x")).1 _ (run_lit B 0) rfl
+example : run B env0 (.bin sp0 .and (var "x") (lit 1)) = run B env0 (var "x") :=
+  (and_skips_rhs_on_falsy_or_failing np0 sp0 (var_frag "x") (lit_frag 1)).2 _ (run_unbound B)
+-- tern_exactly_one: `0 ? x : 2`; tern_fails_on_failing_cond: `x ? 1 : 2`
+example : run B env0 (.tern sp0 (lit 0) (var "x") (lit 2)) = run B env0 (lit 2) :=
+  tern_exactly_one np0 sp0 (lit_frag 0) (var_frag "x") (lit_frag 2) (run_lit B 0)
+example : run B env0 (.tern sp0 (var "x") (lit 1) (lit 2)) = run B env0 (var "x") :=
+  tern_fails_on_failing_cond np0 sp0 (var_frag "x") (lit_frag 1) (lit_frag 2) (run_unbound B)
+-- unevaluated_failure_invisible: the failing `x` behind `1 || ·`, `1 ? 2 : ·`
+example : run B env0 (.bin sp0 .or (lit 1) (var "x")) = { res := .ok (.bool true), log := [] } :=
+  (unevaluated_failure_invisible np0 sp0 (lit_frag 1) (var_frag "x") (lit_frag 2) (run_unbound B) (run_lit B 1)).1 rfl
+-- or_true_absorbs_failing_lhs: `x || 1`; or_fails_otherwise: `x || 0`
+example : run B env0 (.bin sp0 .or (var "x") (lit 1)) = { res := .ok (.bool true), log := [] } :=
+  or_true_absorbs_failing_lhs np0 sp0 (var_frag "x") (lit_frag 1) (run_unbound B) (run_lit B 1) rfl
+example : run B env0 (.bin sp0 .or (var "x") (lit 0)) = run B env0 (var "x") :=
+  or_fails_otherwise np0 sp0 (var_frag "x") (lit_frag 0) (run_unbound B) (run_lit B 0) rfl
 
 end
 
